@@ -227,6 +227,7 @@ func cliExec(c *Ctx, op string) {
 	os.MkdirAll(filepath.Join(base, "src", "d"), 0755)
 	os.WriteFile(filepath.Join(base, "src", "d", "f"), []byte("x"), 0644)
 	os.MkdirAll(filepath.Join(base, "wh"), 0755)
+	os.Symlink("loop", filepath.Join(base, "loop"))
 	bin := os.Getenv("RIO_BIN")
 	if bin == "" {
 		c.EmitR(op, "skip", "skip")
@@ -316,6 +317,19 @@ func cliEngine(c *Ctx) {
 		// a directory whose listing names something that is gone by the time it is stat'ed (the descriptor used for the listing)
 		{"pack", "tar", "/proc/self/fd"}, {"--format=json", "pack", "tar", "/proc/self/fd"}, {"pack", "zip", "/proc/self/fd"}, {"pack", "tar", "/proc/self/task"},
 		{"--format=json", "unpack", "nocolonid", "@W@/dst"}, {"--format=json", "pack", "tar", "@W@/src"}, {"--format=bogus", "pack", "tar", "@W@/src"},
+	}
+	// warehouse addresses on which stat fails with something other than ENOENT: through a regular file (ENOTDIR, one and
+	// two segments below it), through a symlink loop (ELOOP), with an over-long segment (ENAMETOOLONG) — every command
+	long := strings.Repeat("n", 300)
+	for _, bad := range []string{"@W@/src/d/f/wh", "@W@/src/d/f/sub/ware.tgz", "@W@/src/d/f/a/b/c", "@W@/loop/wh", "@W@/loop/sub/ware.tgz", "@W@/" + long + "/wh", "@W@/" + long + "/sub/ware.tgz"} {
+		for _, scheme := range []string{"file://", "ca+file://"} {
+			vecs = append(vecs,
+				[]string{"scan", "tar", "--source=" + scheme + bad},
+				[]string{"unpack", "@GOODID@", "@W@/dst", "--source=" + scheme + bad},
+				[]string{"--format=json", "unpack", "@GOODID@", "@W@/dst", "--source=" + scheme + bad, "--source=ca+file://@W@/wh"},
+				[]string{"mirror", "@GOODID@", "--target=" + scheme + bad, "--source=ca+file://@W@/wh"},
+				[]string{"pack", "tar", "@W@/src", "--target=" + scheme + bad})
+		}
 	}
 	for _, v := range vecs {
 		cliExec(c, mk(v...))
